@@ -221,8 +221,8 @@ def check_builders(seed, fields, flags, raw, variant):
         wit2 = T.make_adapter_witness(seed2, Tp, fields, fl)
         if F.run_auth_scripts([bytes(wit2), bytes(s1)], dict(fields)):
             fails.append(('builders/foreign-adapter-witness-accepted', ''))
-        # deprecated single-script locks (full-message flag only: the final check uses a 64-byte signature)
-        if flags == 0:
+        # deprecated single-script locks
+        if True:
             for name, lk in (('make_adapter_lock_pub', T.make_adapter_lock_pub(pk, Tp, fl)),
                              ('make_adapter_lock_prv', T.make_adapter_lock_prv(pk, tweak, fl))):
                 if not F.run_auth_scripts([P(t) + bytes(wit), bytes(lk)], dict(fields)):
@@ -236,8 +236,82 @@ def check_builders(seed, fields, flags, raw, variant):
     return fails
 
 
+def check_session(case):
+    """Several adapters handled in ONE run (one cache): every check / decryption gives what it gives in isolation,
+    whatever was checked or decrypted before it."""
+    fails = []
+    ad = {}
+    for name in ('A', 'B'):
+        seed, m, raw = case['seed' + name], case['m' + name], case['raw' + name]
+        t_int = E.scalar_int(E.clamp(raw)) % L
+        if t_int == 0 or not m:
+            raise ValueError('degenerate')
+        Tp = E.enc(E.mul(t_int, E.G))
+        r = top(P(seed, m, Tp) + op('OP_MAKE_ADAPTER_SIG_PUBLIC'))
+        if r[0] != 'ok' or len(r[1]) != 2:
+            return [('adapter/PUBLIC/make-fails', '%r' % (r,))]
+        ad[name] = dict(X=E.pub(seed), m=m, raw=raw, t=t_int, T=Tp, R=r[1][0], sa=r[1][1])
+    code, want = b'', []
+    for st_ in case['steps']:
+        a = ad[st_[1]]
+        if st_[0] == 'check':
+            code += P(a['sa'], a['R'], a['m'], a['T'], a['X']) + op('OP_CHECK_ADAPTER_SIG')
+            want.append(b'\xff')
+        elif st_[0] == 'decrypt':
+            raw = a['raw'] if st_[2] == 'own' else hashlib.sha256(a['raw'] + b'other').digest()
+            t_int = E.scalar_int(E.clamp(raw)) % L
+            if t_int == 0:
+                raise ValueError('degenerate')
+            code += P(a['sa'], a['R'], raw) + op('OP_DECRYPT_ADAPTER_SIG')
+            want.append(E.enc(E.add(E.dec(a['R']), E.mul(t_int, E.G))))
+            want.append(((E.scalar_int(a['sa']) + t_int) % L).to_bytes(32, 'little'))
+        else:
+            raise ValueError('step')
+    got = top(code)
+    if got != ('ok', want):
+        first = next((i for i, (x, y) in enumerate(zip(got[1] if got[0] == 'ok' else [], want)) if x != y), None)
+        fails.append(('adapter/session/result-depends-on-earlier-adapter-operations',
+                      'steps %r: first differing result item %r (%s)' % (case['steps'], first, got[0])))
+    return fails
+
+
+@st.composite
+def session_case(draw):
+    steps = draw(st.lists(st.one_of(st.tuples(st.just('check'), st.sampled_from('AB')),
+                                    st.tuples(st.just('decrypt'), st.sampled_from('AB'), st.sampled_from(['own', 'own', 'other']))),
+                          min_size=2, max_size=5))
+    b32 = st.binary(min_size=32, max_size=32)
+    same_signer = draw(st.booleans())
+    sa = draw(b32)
+    return {'check': 'session', 'seedA': sa, 'seedB': sa if same_signer else draw(b32), 'mA': draw(st.binary(min_size=1, max_size=20)),
+            'mB': draw(st.binary(min_size=1, max_size=20)), 'rawA': draw(b32), 'rawB': draw(b32), 'steps': [list(x) for x in steps]}
+
+
+def task_sessions(ctx):
+    def one(c):
+        try:
+            fails = check_session(c)
+        except ValueError:
+            return
+        kinds = [x[0] for x in c['steps']]
+        ctx.case((c['seedA'], c['seedB'], c['mA'], c['mB'], c['rawA'], c['rawB'], c['steps']), len({x[1] for x in c['steps']}) == 2)
+        ctx.count('session:%s' % ('check-then-decrypt' if 'check' in kinds and 'decrypt' in kinds else '+'.join(sorted(set(kinds)))))
+        for s, d in fails:
+            ctx.fail('session', s, c, d)
+        if len(c['steps']) == 3:
+            ctx.sample({k: v for k, v in c.items() if k != 'check'})
+    hyp.drive(session_case(), one, ctx.n(1500, 60000), ctx.seed + 2)
+
+
 def check_case(case):
     k = case['check']
+    if k == 'session':
+        for n in ('seedA', 'seedB', 'rawA', 'rawB'):
+            if len(case[n]) != 32:
+                raise ValueError('shape')
+        if not 1 <= len(case['steps']) <= 8:
+            raise ValueError('steps')
+        return check_session(case)
     if k == 'op':
         if len(case['seed']) != 32 or len(case['raw']) != 32 or case['maker'] not in ('PUBLIC', 'PRIVATE') or len(case['m']) > 600:
             raise ValueError('shape')
@@ -307,4 +381,4 @@ def task_builders(ctx):
     hyp.drive(builder_case(), one, ctx.n(700, 30000), ctx.seed + 1)
 
 
-TASKS = {'ops': (task_ops, 12, 16), 'builders': (task_builders, 4, 16)}
+TASKS = {'ops': (task_ops, 12, 16), 'builders': (task_builders, 4, 16), 'sessions': (task_sessions, 4, 16)}
